@@ -124,6 +124,10 @@ type RouteConfig struct {
 	CreateConnFn           CreateConnFunc
 	ChooseEndpointFn       ChooseEndpointFunc
 	CreateConnByEndpointFn CreateConnByEndpointFunc
+
+	// registrationID distinguishes successive registrations of the same (domain, location, user),
+	// it is set by HTTPReverseProxy.Register.
+	registrationID uint64
 }
 
 // listen for a new domain name, if rewriteHost is not empty and rewriteHost func is not nil,
